@@ -55,6 +55,19 @@ def strata(tier):
                     leaf = dict(leaf, args=leaf["args"][:1])
                 yield {"term": leaf, "sseed": j, "probe": cont}
     L = PC.L
+    # None next to type names under the type pre-processor ("a str or nothing"); type objects vs names, incl. bool / int
+    for kind, cont in (("value", [None, "a", 1, True, 2.5, [1], {"a": 1}]), ("key", {None: 1, "a": 2, 3: 4, True: 5, 2.5: 6})):
+        for fn in ("in_", "not_in"):
+            for args in ([[{"$type": "str"}, None]], [[None, {"$type": "int"}]], [[{"$type": "bool"}, {"$type": "int"}]], [[{"$type": "bool"}]],
+                         [[None, {"$type": "dict"}, {"$type": "list"}, None]]):
+                for ss in range(4):
+                    yield {"term": PC.L(kind, fn, *args, pre="dtype"), "sseed": ss, "probe": cont, "stratum": "dtype-none-items"}
+        for tn in ("bool", "int", "float", "str", "list", "dict"):
+            for ss in range(3):
+                yield {"term": PC.L(kind, "equal_to", {"$type": tn}, pre="dtype"), "sseed": ss, "probe": cont}
+                if kind == "value":
+                    yield {"term": PC.L("value", "is_instance", {"$type": tn}), "sseed": ss, "probe": cont}
+                    yield {"term": PC.L("value", "keys_is_instance", {"$type": tn}, {"$type": "str"}), "sseed": ss, "probe": [{True: 1}, {1: 1}, {"a": 1, 2.5: 0}, {}, 3]}
     for j in range(40 if tier == "quick" else 200):
         rng = G.rng_for("C09-nest", j)
         kinds = rng.choice([["value"], ["value", "key"], ["value", "index"]])
